@@ -450,7 +450,12 @@ def run(ctx):
     counts = list(range(1, 41)) if ctx.thorough else [1, 2, 3, 4, 5, 6, 7, 9, 12]
     if not proved:
         counts = sorted(set(counts) | set(range(1, 17 if not ctx.thorough else 65)))
+    # counts at the sizes the tree itself names (rules/common.harvested_sizes), with fewer settings each
+    big_counts = [c for c in common.scale_sizes(ctx, res) if c not in counts and c <= common.HUB_CAP + 1]
     jobs = []
+    for count in big_counts:
+        for conn, ens, rmode, smode in ((None, False, "lo", "first"), (None, True, "hi", "rotate"), (0, False, "lo", "first"), (1, True, "hi", "first")):
+            jobs.append((count, "DirectedEdge", conn, ens, rmode, smode))
     for count in counts:
         edges = ("DirectedEdge", "UnDirectedEdge", "SymTwo", "RoadLink", "FixedEndsEdge") if count <= 4 else ("DirectedEdge",)      # incl. two user edge classes
         for edge, conn, ens, rmode, smode in itertools.product(edges, (None, 0, 0.5, 1), (True, False), ("lo", "hi"), ("first", "last", "rotate")):
